@@ -1,5 +1,5 @@
 (* C05 — property theorems only. *)
-Require Import V.Lib V.C05_Model V.C05_Proofs V.C05_RetryProofs V.C05_RRProofs V.C05_ConcProofs V.C05_SeqProofs.
+Require Import V.Lib V.C05_Model V.C05_Proofs V.C05_RetryProofs V.C05_OracleProofs V.C05_RRProofs V.C05_ConcProofs V.C05_SeqProofs.
 Open Scope N_scope.
 
 (* soundness: no policy ever returns an unavailable backend *)
@@ -422,3 +422,72 @@ Example C05_fails_nonvacuous :
   fmono 0 evs = true /\ f_cnt (frun false 3 evs) = 0%Z /\ f_cnt (frun true 3 evs) = (-1)%Z /\
   live 10 (fexp 3 evs) = 0.
 Proof. exact fails_reset_witness. Qed.
+
+(* ================= the policy as a choice oracle: the property does not depend on the policy =================
+   [osel] is a selector whose state is the list of choices still to be made (a choice that is not
+   available when it is made is overridden by the earliest available host; nil only when no host
+   is available).  Every run of the retry loop with ANY sound and complete selector - in
+   particular every policy of policy.go behind staticUpstream.Select, random and least_conn
+   included, for any random stream and any connection counts - IS the run of [osel] fed with the
+   hosts that run chose: same events, same times, same outcome. *)
+Theorem C05_retry_run_is_oracle_run :
+  forall (S : Type) (sel : S -> list bool -> option nat * S) c unh scr envdown,
+  sel_sound S sel ->
+  (forall st av, length av = t_n c -> existsb (fun b => b) av = true -> fst (sel st av) <> None) ->
+  forall fuel now fx cnt st fresh it,
+  runT (list nat) osel c unh scr envdown fuel now fx cnt
+       (ev_choices (snd (runT S sel c unh scr envdown fuel now fx cnt st fresh it))) fresh it
+  = runT S sel c unh scr envdown fuel now fx cnt st fresh it.
+Proof. exact run_is_oracle_run_top. Qed.
+Print Assumptions C05_retry_run_is_oracle_run.
+Theorem C05_retry_policy_run_is_oracle_run : forall p c unh scr envdown,
+  N.of_nat (t_n c) < U32 ->
+  forall fuel now fx cnt st fresh it,
+  runT (list nat) osel c unh scr envdown fuel now fx cnt
+       (ev_choices (snd (runT (N * list N) (rsel p) c unh scr envdown fuel now fx cnt st fresh it))) fresh it
+  = runT (N * list N) (rsel p) c unh scr envdown fuel now fx cnt st fresh it.
+Proof. exact policy_run_is_oracle_run. Qed.
+Print Assumptions C05_retry_policy_run_is_oracle_run.
+
+(* the oracle selector is sound and complete for EVERY oracle ... *)
+Theorem C05_oracle_selector_sound : forall st av i st', osel st av = (Some i, st') -> nth i av false = true.
+Proof. exact osel_sound. Qed.
+Print Assumptions C05_oracle_selector_sound.
+Theorem C05_oracle_selector_complete : forall st av,
+  existsb (fun b => b) av = true -> fst (osel st av) <> None.
+Proof. exact osel_complete. Qed.
+Print Assumptions C05_oracle_selector_complete.
+
+(* ... hence, WHATEVER the policy chooses: a request is answered by a healthy backend whenever one
+   exists and the budget covers the others (same hypotheses as C05_retry_reaches_healthy, none on
+   the choices) ... *)
+Theorem C05_retry_reaches_healthy_any_choice : forall c unh scr envdown g dmax,
+  reach_hyp c unh scr g dmax = true ->
+  (forall it, envdown it g = false) ->
+  forall fx0 (choices : list nat) fuel,
+  live 0 (fx0 g) < t_mf c ->
+  (N.to_nat (waste c unh scr g) < fuel)%nat ->
+  exists j t tr, runT (list nat) osel c unh scr envdown fuel 0 fx0 (fun _ => 0%nat) choices true 0
+                 = (TAnswered j t, tr) /\ answered_ok (t_n c) unh tr (TAnswered j t) = true.
+Proof. exact oracle_reaches_healthy. Qed.
+Print Assumptions C05_retry_reaches_healthy_any_choice.
+(* the oracle picks host 1 first, then host 1 again while its failure is unexpired (overridden:
+   host 0 is tried), then host 2, which answers *)
+Example C05_retry_reaches_healthy_any_choice_nonvacuous :
+  reach_hyp exA_c (unh_of [false; false; false]) exA_scr 2 2 = true /\
+  runT (list nat) osel exA_c (unh_of [false; false; false]) exA_scr no_env 4 0 fx_none cnt0 [1; 1; 2]%nat true 0 =
+  (TAnswered 2 11, [EAttempt 0 1 KFailAfter RxFull false 2; EAttempt 6 0 KFailBefore RxNotRead false 6;
+                    EAttempt 10 2 KOk RxFull true 11]).
+Proof. exact exO_run_eq. Qed.
+
+(* ... and of every run, whatever the choices: failed hosts are skipped until their failures expire
+   (Fails accounting), every attempt gets the complete body, 200 only from a successful forward to
+   a host that is not unhealthy, 502 only once the duration is spent *)
+Theorem C05_retry_any_choice_clauses : forall c unh scr envdown (choices : list nat) fuel now fx cnt it,
+  let r := runT (list nat) osel c unh scr envdown fuel now fx cnt choices true it in
+  skip_ok (t_mf c) (t_ft c) (fun _ => []) (snd r) = true /\
+  bodies_ok (snd r) = true /\
+  (fst r <> THang -> answered_ok (t_n c) unh (snd r) (fst r) = true) /\
+  (forall t, fst r = T502 t -> t_td c <= t).
+Proof. exact oracle_run_clauses. Qed.
+Print Assumptions C05_retry_any_choice_clauses.
